@@ -143,6 +143,24 @@ CLAIMED = {
    note="Trusted: Coq kernel+vm_compute; the template translator and jinja2's parser; Jinja runtime as reference for the interpreter; C's "
         "enumerator semantics as stated in Lang/EnumBody.v; JniFlags support code (read). Known finding C08-K1.",
    technique="Coq proof by induction over flag lists on the translated templates (deep embedding of Jinja) + vm_compute correspondence against Jinja itself", design="7/C08"),
+ 'C09': dict(
+   text="Coq render theorems, proved for EVERY record (any names, any deriving set, any number of fields): the eq and ord sections of the "
+        "C++ record source template and of the Java record template - as translated from /repo on this very run - print exactly the && "
+        "chain over all fields in declaration order (`true;` for no fields), operator!= as !(lhs == rhs), the two-if cascade per field and "
+        "> <= >= in terms of <, Java equals / hashCode (17, *31 + term) / compareTo (tempResult cascade, boxed vs primitive branch), and the "
+        "C++/Java string forms mention every field. Meaning (Lang/RecordOps.v, any number of fields): == is an equivalence that holds iff "
+        "all fields are equal, != its negation, < is irreflexive, transitive, total modulo ==, exactly the lexicographic order of the "
+        "printed field order and never holds between == values; equals implies equal hashCode (32-bit wrap included); compareTo<0 iff <, "
+        "compareTo=0 iff equals - under the stated hypotheses about the FIELD types' own operators (discharged for integers). Per-field Java "
+        "expressions (Lang/JavaField.v): hash term and equals term are single operands at parenthesis depth 0 for every type kind and every "
+        "identifier (the precedence slips repaired in ebe4a26 / 14a62e6 are rejected by the same scanner), references compare by content. "
+        "Ties: K-jinja renders the sliced sections with Jinja itself on the real objects vs the TIR interpreter; K-jfield compares "
+        "JavaDataField.equals/hash_code with the model; an independent judge compiles the generated C++ (g++) and Java (javac) with a "
+        "generated driver and compares ==,!=,<,>,<=,>=,equals,hashCode,compareTo,toString on value tuples with tuple semantics.",
+   note="Trusted: Coq kernel+vm_compute; template translator and jinja2's parser; Jinja runtime as reference for the interpreter; C++/Java "
+        "semantics of the printed shapes as written in Lang/RecordOps.v; g++/javac for the judge. Five defects repaired (14a62e6, ebe4a26, "
+        "d28ab69, 435354f, 149d679).",
+   technique="Coq proof by induction over field lists on the translated templates (deep embedding of Jinja) + order-theoretic proofs + vm_compute correspondences + compile-and-run judge", design="7/C09"),
 }
 PENDING_REASON = "check not built yet in this session (work in progress; see DESIGN.md section 10 build order)"
 HOOK_COMMITS = []
